@@ -97,7 +97,7 @@ class Ctx:
             return
         t0 = time.time()
         ok, rejected, states = core.validate_trace(self.outdir, "%s.%s.%s.cap%d" % (label, profile, elem, cap), module, logp,
-                                                   invariants=invariants)
+                                                   invariants=invariants, priority=getattr(self, "priority_event", None))
         nev = core.count_lines(logp)
         self.events_validated += ok
         self.traces_validated += 1
@@ -176,7 +176,8 @@ class Ctx:
                         fo.write(line)
             logp = tmp
         nev = core.count_lines(logp)
-        ok, rejected, states = core.validate_trace(self.outdir, "%s.%s" % (label, profile), module, logp, invariants=invariants)
+        ok, rejected, states = core.validate_trace(self.outdir, "%s.%s" % (label, profile), module, logp, invariants=invariants,
+                                                   priority=getattr(self, "priority_event", None))
         self.events_validated += ok
         self.traces_validated += 1
         self.tlc.append({"name": "trace:" + label, "module": module, "states_generated": states, "distinct_states": states,
